@@ -48,6 +48,7 @@ def verify(seed):
     head = ensure_work()
     env = dict(os.environ, CARGO_NET_OFFLINE="true")
     log = []
+    sh(["cargo", "build", "--offline", "--workspace"], cwd=WORK, env=env)  # never demo against a stale binary
     rc0, out0 = sh(["bash", os.path.join(d, "demo.sh"), WORK], cwd=d, env=env)
     log.append("demo on unmodified tree: rc=%d" % rc0)
     rca, outa = sh(["git", "apply", os.path.join(d, "patch.diff")], cwd=WORK)
@@ -58,6 +59,7 @@ def verify(seed):
     rct, outt = sh([os.path.join(VERIF, "tools", "repo_tests.sh"), WORK], env=env)
     tline = outt.strip().splitlines()[0] if outt.strip() else ""
     log.append("tests with change: rc=%d %s" % (rct, tline))
+    sh(["cargo", "build", "--offline", "--workspace"], cwd=WORK, env=env)
     rc1, out1 = sh(["bash", os.path.join(d, "demo.sh"), WORK], cwd=d, env=env)
     log.append("demo with change: rc=%d" % rc1)
     ev = tempfile.mkdtemp(prefix="okseed-ev-")
